@@ -664,6 +664,99 @@ theorem C20_span_provenance (S : List Sp) (p : Pat) (value : Toks)
     ⟨fun _ hx => by simp [rootVExpr, VExpr.ofCore] at hx, trivial⟩ value
     (fun t ht => Or.inr (hval t ht)) p hp
 
+/-! ### The whole output block -/
+
+section whole
+variable {P : Sp → Prop}
+
+attribute [local irreducible] tq tstr sepBy supportPath
+
+theorem nodeIdent_allSpans (hcs : P Sp.callSite) (id : Nat) : Toks.allSpans P (nodeIdent id) := tq_allSpans hcs _
+
+theorem refList_allSpans (hcs : P Sp.callSite) (ids : List Nat) : Toks.allSpans P (refList ids) := by
+  have hcs' : P cs := hcs
+  unfold refList
+  refine append_allSpans (append_allSpans (tq_allSpans hcs' _) (sepBy_allSpans (tq_allSpans hcs' _) ?_)) (tq_allSpans hcs' _)
+  intro x hx
+  obtain ⟨i, _, rfl⟩ := List.mem_map.1 hx
+  exact append_allSpans (tq_allSpans hcs' _) (nodeIdent_allSpans hcs i)
+
+theorem entryList_allSpans (hcs : P Sp.callSite) (es : List (String × Nat)) : Toks.allSpans P (entryList es) := by
+  have hcs' : P cs := hcs
+  unfold entryList
+  refine append_allSpans (append_allSpans (tq_allSpans hcs' _) (sepBy_allSpans (tq_allSpans hcs' _) ?_)) (tq_allSpans hcs' _)
+  intro x hx
+  obtain ⟨⟨k, i⟩, _, rfl⟩ := List.mem_map.1 hx
+  exact append_allSpans (append_allSpans (append_allSpans (append_allSpans (tq_allSpans hcs' _) (tstr_allSpans hcs' _))
+    (tq_allSpans hcs' _)) (nodeIdent_allSpans hcs i)) (tq_allSpans hcs' _)
+
+macro "cs_auto" hcs:ident : tactic => `(tactic|
+  repeat (first
+    | assumption
+    | exact nil_allSpans
+    | exact refList_allSpans $hcs _
+    | exact entryList_allSpans $hcs _
+    | exact nodeIdent_allSpans $hcs _
+    | exact supportPath_allSpans (by assumption)
+    | exact tq_allSpans (by assumption) _
+    | exact tstr_allSpans (by assumption) _
+    | apply append_allSpans))
+
+attribute [local irreducible] refList entryList nodeIdent
+
+theorem nodeKindToks_allSpans (hcs : P Sp.callSite) (k : Runtime.NodeKind) : Toks.allSpans P (nodeKindToks k) := by
+  have hcs' : P cs := hcs
+  cases k <;> simp only [nodeKindToks, kindPath, boolTok]
+  case enumVariant path args => cases args <;> simp only [] <;> cs_auto hcs
+  all_goals cs_auto hcs
+
+attribute [local irreducible] nodeKindToks
+
+theorem NodeDef.toks_allSpans (hcs : P Sp.callSite) (d : NodeDef) : Toks.allSpans P d.toks := by
+  have hcs' : P cs := hcs
+  have hk := nodeKindToks_allSpans hcs d.kind
+  unfold NodeDef.toks
+  cases d.parent <;> simp only [] <;> cs_auto hcs
+
+attribute [local irreducible] NodeDef.toks
+
+theorem Expansion.head_allSpans (hcs : P Sp.callSite) (x : Expansion) : Toks.allSpans P x.head := by
+  have hcs' : P cs := hcs
+  have hnodes : Toks.allSpans P (x.nodes.flatMap fun (id, d) =>
+      tq cs "static" ++ nodeIdent id ++ tq cs ":" ++ supportPath cs ++ tq cs "PatternNode =" ++ d.toks ++ tq cs ";") := by
+    apply flatMap_allSpans
+    intro ⟨id, d⟩ _
+    have hd := NodeDef.toks_allSpans hcs d
+    simp only []
+    cs_auto hcs
+  unfold Expansion.head
+  cs_auto hcs
+
+theorem Expansion.tail_allSpans (hcs : P Sp.callSite) : Toks.allSpans P Expansion.tail := by
+  have hcs' : P cs := hcs
+  unfold Expansion.tail
+  cs_auto hcs
+
+end whole
+
+/-- **C20 - span provenance of the WHOLE expansion** (node definitions, report set-up, the binding
+of the asserted expression, the assertion code, the final `panic!`): every token the macro
+returns carries the call-site span or a span that occurs in the invocation. -/
+theorem C20_whole_expansion_provenance (S : List Sp) (p : Pat) (value : Toks)
+    (hp : p.allSpans (fun sp => sp = Sp.callSite ∨ sp ∈ S))
+    (hval : ∀ t ∈ value, t.sp ∈ S) :
+    ∀ t ∈ Expansion.toks value (expand p), t.sp = Sp.callSite ∨ t.sp ∈ S := by
+  have hcs : (fun sp => sp = Sp.callSite ∨ sp ∈ S) Sp.callSite := Or.inl rfl
+  have hv : Toks.allSpans (fun sp => sp = Sp.callSite ∨ sp ∈ S) value := fun t ht => Or.inr (hval t ht)
+  have hbody : Toks.allSpans (fun sp => sp = Sp.callSite ∨ sp ∈ S) ((expand p).body.toks value) :=
+    fun t ht => C20_span_provenance S p value hp hval t ht
+  unfold Expansion.toks
+  refine append_allSpans (append_allSpans (append_allSpans (Expansion.head_allSpans hcs _) ?_) hbody)
+    (Expansion.tail_allSpans hcs)
+  split
+  · exact nil_allSpans
+  · exact append_allSpans (append_allSpans (tq_allSpans hcs _) hv) (tq_allSpans hcs _)
+
 /-- Non-vacuity: a comparison inside a variant inside a named struct field, with four
 distinct spans; the hypothesis is satisfiable with `S` = those spans and the conclusion
 speaks about a non-empty token stream. -/
